@@ -28,7 +28,7 @@ LEVEL_NOTE = ('Trusted: search.py; goal = agent on the exit (memory tasks: the e
               'never drops a held key (sound for existence). Known findings F1/F2 are matched by mechanism (goal reachable once '
               'wrong-coloured exits are passable / once obstacles are removed), never by seed.')
 SHARDS = {'quick': 4, 'thorough': 16}
-BUDGET_S = {'quick': 60, 'thorough': 1200}
+BUDGET_S = {'quick': 300, 'thorough': 2400}
 RULE = ('case = (reset function, parameters, seed or script) -> initial state -> search. non-trivial = the shortest history '
         'found has at least 3 actions; distinct by deep encoding of the initial state.')
 ASSUMPTIONS = ['environment per family assembled from the shipped config of that family (same dynamics and termination)',
